@@ -50,7 +50,11 @@ TOp == /\ Consume /\ Ev.ev # "reset" /\ ~skip /\ UNCHANGED lock
                    ELSE PrintT(<< "REJECT", l, Ev.ev >>) /\ skip' = TRUE /\ UNCHANGED << a, srclen, hw >>
             ELSE IF AcceptOp
                    THEN /\ a' = Step.a
-                        /\ UNCHANGED << srclen, skip, hw >>   \* otherwise the bus is exempt from the no-allocation rule
+                        \* the footprint is compared between rounds with the same set of outputs: attaching or
+                        \* dropping an output may legitimately change it once (e.g. the backlog's storage is first
+                        \* needed when a second output appears), so the reference is taken anew at the next mark
+                        /\ hw' = IF Ev.ev \in {"send", "drop"} THEN -1 ELSE hw
+                        /\ UNCHANGED << srclen, skip >>       \* otherwise the bus is exempt from the no-allocation rule
                    ELSE PrintT(<< "REJECT", l, Ev.ev >>) /\ skip' = TRUE /\ UNCHANGED << a, srclen, hw >>
 \* (after a functional rejection the rest of the execution is not judged for C13, but the lock-step
 \* clause of C07 only reads the logged backlog / footprint, so it still is)
